@@ -56,6 +56,7 @@ def run(ctx, rep, tier):
     rep.rule("SA", "every admitting exit of an admission predicate is dominated by orientation compatibility of that (cell,row)", 7)
     rep.rule("AC", "legalizer commits only candidates the admission predicate accepted; candidate variables assigned together", 2)
     rep.rule("G7", "orientation stores come from the orientation function of the row whose y is stored with them", 4)
+    rep.rule("EO", "the legalized orientation of every placed cell is written back (no export condition that ignores the orientation)", 2)
     rep.rule("PP", "the model builders hand the circuit's row polarities over unchanged", 3)
     rep.rule("R1", "Detailed-step callbacks observe the exported (legalized / current) placement", 2)
     rep.rule("KO", "cells without polarity keep their input orientation", 3)
@@ -66,6 +67,7 @@ def run(ctx, rep, tier):
     check_region_choice(ctx, rep)
     check_commits(ctx, rep, "AC")
     check_g7(ctx, rep)
+    check_export_orientation(ctx, rep)
     from .c02 import check_export_before_callback
     check_export_before_callback(ctx, rep, "R1", (CQ + "DetailedPlacer",))
     check_polarity_provenance(ctx, rep)
@@ -368,7 +370,7 @@ def check_commits(ctx, rep, rid):
         # the placed flag and row list must accompany the push on the same row
         flag = [y for y in walk(f.body) if y.get("kind") in ("BinaryOperator", "CXXOperatorCallExpr") and
                 _store_target(canon(y)) == ("index", ("field", CQ + "LegalizerBase::cellIsPlaced_", ("this",)), cv)]
-        lst = [y for y in walk(f.body) if y.get("kind") == "CXXMemberCallExpr" and callee_info(y)["name"] == "push_back" and
+        lst = [y for y in walk(f.body) if y.get("kind") == "CXXMemberCallExpr" and callee_info(y)["name"] in ("push_back", "emplace_back") and
                canon(callee_info(y)["obj"]) == ("index", ("field", ROWLIST, ("this",)), R)]
         together = flag and lst and same_block(g, g.node_for(x), g.node_for(flag[0])) and same_block(g, g.node_for(x), g.node_for(lst[0]))
         what = "commit %s.push" % pretty(oc)
@@ -743,3 +745,38 @@ def check_polarity_provenance(ctx, rep):
                 rep.holds("PP", x, f, what, "a local copy filled only with the circuit's polarities")
     if n == 0:
         rep.unknown("PP", None, None, "model builders", "no fromIspdCircuit builder passing a polarity vector found (shape changed)")
+
+
+def check_export_orientation(ctx, rep):
+    """EO. Legalizer::exportPlacement / DetailedPlacement::exportPlacement store the orientation the algorithm chose for every
+    placed movable cell. The store may depend on the cell being movable and placed (and on the loop / index bookkeeping), not on
+    a test of something else: `only cells whose position changed` skips a cell that was already at a legal position but whose
+    incoming orientation is not the one its row prescribes."""
+    from .common import is_fixed_test
+    prog, eff = ctx.prog, ctx.eff
+    n = 0
+    for q in ("Legalizer::exportPlacement", "DetailedPlacement::exportPlacement"):
+        for f in prog.func(CQ + q, required=False) or []:
+            s = eff.summary(f)
+            for x, u in s["writes"].get(CQ + "Circuit::cellOrientation_", []):
+                n += 1
+                from .common import expand_locals
+                pos, ori = [], False
+                for gc, val, ast, _b in (ctx.guards(f, u.node) or []):
+                    ge = expand_locals(ctx, f, gc)
+                    fields = {t[1] for t in subterms(ge) if isinstance(t, tuple) and t and t[0] == "field"}
+                    if CQ + "Circuit::cellOrientation_" in fields:
+                        ori = True
+                    if fields & {CQ + "Circuit::cellX_", CQ + "Circuit::cellY_"}:
+                        pos.append((gc, val))
+                what = "%s stores Circuit::cellOrientation_" % f.short
+                if not pos:
+                    rep.holds("EO", u.node, f, what, "under no condition on the cell's current position")
+                elif ori:
+                    rep.unknown("EO", u.node, f, what, "under a condition that compares positions and orientations: not analysed")
+                else:
+                    rep.violation("EO", u.node, f, what, "only under %s, a test of the cell's current position: a cell that is already at a legal "
+                                  "position keeps its incoming orientation, whatever its row prescribes" % [pretty(gc)[:60] + ("" if v else " [false]") for gc, v in pos],
+                                  key="%s|orientation exported only for moved cells" % f.short)
+    if n == 0:
+        rep.unknown("EO", None, None, "orientation write-back", "no store to Circuit::cellOrientation_ found in the export functions (shape changed)")
